@@ -93,6 +93,17 @@ func writeEvidence(f *commonFlags, tot *Stats, wall float64, reported, known []s
 	}
 	if laneB != nil {
 		cov["lane_b"] = laneB
+		if tot.Evaluations == 0 {
+			// lane A was skipped (un-simulated blocking constructs): what was explored is lane B's
+			if n, ok := laneB["call_sets"].(int64); ok {
+				cov["evaluations"] = n
+				cov["distinct_nontrivial"] = n
+				cov["samples"] = []any{"lane A skipped; lane B call sets are generated exactly as lane A cases (same generator, same case indices)"}
+			}
+		}
+	}
+	if inv != nil && len(inv.Unsim) > 0 {
+		cov["real_goroutines_mode"] = "the library uses blocking constructs the simulator does not own: its go statements start real goroutines, replay is not exact for this tree"
 	}
 	switch f.prop {
 	case "C19":
